@@ -216,6 +216,13 @@ func runCmd(argv []string) int {
 	}
 	initPkgs := []string{"io", "context", *mod + "/logger", *mod + "/pkg", *mod + "/model", *mod + "/ast", *mod + "/engine"}
 	initPkgs = append(initPkgs, inits...)
+	seenInit := map[string]bool{}
+	for _, p := range initPkgs {
+		seenInit[p] = true
+	}
+	if ep := entryFn.Pkg.Pkg.Path(); !seenInit[ep] {
+		initPkgs = append(initPkgs, ep) // the harness package's own package-level variables
+	}
 	prep, err := interp.Prepare(prog, entryFn, res.Args, initPkgs, *mod, *kbdir)
 	if err != nil {
 		return fail(err.Error())
